@@ -156,9 +156,14 @@ NearestSpanSet(n, l, u, v) ==
 AbsI(k)            == IF k < 0 THEN -k ELSE k
 VecIdx(i, n, inc)  == IF inc > 0 THEN 1 + (i - 1) * inc ELSE 1 + (n - i) * (-inc)
 BackLen(n, inc)    == IF n = 0 THEN 0 ELSE 1 + (n - 1) * AbsI(inc)
-Lay(x, inc, guard) == LET n == Len(x) IN
+LayDef(x, inc, guard) == LET n == Len(x) IN
   [p \in 1..BackLen(n, inc) |-> IF \E i \in 1..n : VecIdx(i, n, inc) = p
                                 THEN x[CHOOSE i \in 1..n : VecIdx(i, n, inc) = p] ELSE guard]
+\* the same array computed by inverting VecIdx (linear time for the generator); SliceAlias.tla
+\* checks Lay = LayDef for every n <= 6 and increment +-1..5
+Lay(x, inc, guard) == LET n == Len(x)  a == AbsI(inc) IN
+  [p \in 1..BackLen(n, inc) |-> IF (p - 1) % a = 0
+                                THEN x[IF inc > 0 THEN (p - 1) \div a + 1 ELSE n - (p - 1) \div a] ELSE guard]
 
 (******************************* data ***************************************)
 Pick(s, k) == s[(k % Len(s)) + 1]
@@ -225,7 +230,7 @@ Guard == 777
 (***************************** the cases ************************************)
 Empty == <<>>
 Base(f, n, v) == [f |-> f, n |-> n, v |-> v, x |-> Empty, y |-> Empty, a |-> 0, ai |-> 0, si |-> 0, k |-> 0,
-                  w |-> Empty, s |-> 0, iw |-> Empty, allow |-> Empty, e |-> 0, e32 |-> 0, tol |-> 0,
+                  w |-> Empty, s |-> 0, iw |-> Empty, allow |-> Empty, e |-> 0, e32 |-> 0, tol |-> 0, alt |-> KEEP,
                   incx |-> 1, incy |-> 1, b |-> FALSE, skip |-> FALSE]
 W2(f, n, v, x, y, w)    == [Base(f, n, v) EXCEPT !.x = x, !.y = y, !.w = w]
 W2a(f, n, v, a, x, y, w) == [Base(f, n, v) EXCEPT !.x = x, !.y = y, !.a = a, !.w = w]
@@ -511,7 +516,120 @@ SCase(f, n, v) ==
     [] f = "R3VecRow" -> [B0 EXCEPT !.x = a, !.k = n % 3, !.w = [j \in 1..3 |-> At(a, (n % 3) + 1, j)]]
     [] f = "R3VecCol" -> [B0 EXCEPT !.x = a, !.k = n % 3, !.w = [i \in 1..3 |-> At(a, i, (n % 3) + 1)]]
 
-Case(f, n, v) == IF f \in CFns THEN CCase(f, n, v) ELSE IF f \in SFns THEN SCase(f, n, v) ELSE RCase(f, n, v)
+
+(*************** pairs of special values at two swept positions *************)
+\* variant v: the ordered pair of kinds (K1 at the lower position, K2 at the higher one) is
+\* v mod 16; the pair of position classes {first, second, middle, n-2, n-1, last, salted}
+\* rotates with v div 16, the length and the seed, so that every (kind pair, position pair,
+\* unroll residue) combination is met across the lengths.
+PKinds == <<NaN, PInf, NInf, NZero>>
+K1(v) == PKinds[(v % 4) + 1]
+K2(v) == PKinds[((v \div 4) % 4) + 1]
+PairCls == << <<1, 6>>, <<1, 2>>, <<3, 6>>, <<1, 3>>, <<5, 6>>, <<2, 7>>, <<4, 6>>, <<1, 7>>, <<3, 5>>, <<2, 3>>,
+              <<4, 5>>, <<7, 6>>, <<1, 5>>, <<2, 4>>, <<3, 7>>, <<1, 4>>, <<2, 6>>, <<3, 4>>, <<5, 7>>, <<2, 5>>, <<4, 7>> >>
+Clamp(p, n) == IF p < 1 THEN 1 ELSE IF p > n THEN n ELSE p
+PosCls(n, v, k) == Clamp(CASE k = 1 -> 1 [] k = 2 -> 2 [] k = 3 -> (n + 1) \div 2 [] k = 4 -> n - 2
+                           [] k = 5 -> n - 1 [] k = 6 -> n [] OTHER -> ((Seed + 7 * n + v) % n) + 1, n)
+PJ(n, v) == PairCls[((v \div 16 + n + Seed) % 21) + 1]
+PA(n, v) == PosCls(n, v, PJ(n, v)[1])
+PB(n, v) == PosCls(n, v, PJ(n, v)[2])
+P1(n, v) == IF PA(n, v) <= PB(n, v) THEN PA(n, v) ELSE PB(n, v)
+P2(n, v) == IF PA(n, v) <= PB(n, v) THEN PB(n, v) ELSE PA(n, v)
+\* two distinct positions (n >= 2) for the insertion form
+D1(n, v) == IF P1(n, v) = P2(n, v) /\ P1(n, v) = n THEN n - 1 ELSE P1(n, v)
+D2(n, v) == IF P1(n, v) = P2(n, v) THEN (IF P1(n, v) = n THEN n ELSE P1(n, v) + 1) ELSE P2(n, v)
+\* both specials into x (replacing the formula values)
+PairX(x, n, v) == Inj(Inj(x, P1(n, v), K1(v)), P2(n, v), K2(v))
+\* two-vector forms: K1 into x at P1; K2 into x at P2 / into y at P2 / into y at P1 (same position)
+PMode(n, v) == (v \div 16 + n + Seed + v) % 4
+PairXX(x, n, v) == IF PMode(n, v) = 0 THEN PairX(x, n, v) ELSE Inj(x, P1(n, v), K1(v))
+PairYY(y, n, v) == CASE PMode(n, v) = 0 -> y [] PMode(n, v) = 2 -> Inj(y, P1(n, v), K2(v)) [] OTHER -> Inj(y, P2(n, v), K2(v))
+\* insertion of two values into a sequence m of length n - 2, giving length n
+Ins2(m, n, p1, a, p2, b) == [i \in 1..n |-> IF i = p1 THEN a ELSE IF i = p2 THEN b
+                                           ELSE m[IF i < p1 THEN i ELSE IF i < p2 THEN i - 1 ELSE i - 2]]
+SqVec0(n, v) == IF n = 0 THEN <<>> ELSE SqVec(n, v)
+HasSq0(n) == n = 0 \/ HasSqSol(n)
+\* class of a Euclidean norm whose terms include the specials in S: NaN dominates, then Inf
+AnyNaN(S) == \E a \in S : IsNaN(a)
+AnyInf(S) == \E a \in S : IsInf(a)
+NormClass(S, r) == IF AnyNaN(S) THEN NaN ELSE IF AnyInf(S) THEN PInf ELSE r
+\* maximum absolute value with NaN dominating (math.Max semantics) / with NaN entries ignored
+MaxAbsNaN(x) == IF \E i \in 1..Len(x) : IsNaN(x[i]) THEN NaN ELSE MaxAbsS(x)
+MaxAbsSkip(x) == MaxAbsS(Map1(LAMBDA t : IF IsNaN(t) THEN 0 ELSE t, x))
+HasNaNV(x) == \E i \in 1..Len(x) : IsNaN(x[i])
+IncP(n, v) == ((v \div 16 + n + v) % 3) + 1
+IncPY(n, v) == Pick(<<1, -2, 3, -1, 2, -3>>, v \div 16 + n + 2 * v + Seed)
+
+PFns == {"SumP", "DotP", "Norm1P", "NormInfP", "Norm2P", "Dist1P", "DistInfP", "Dist2P", "CumSumP", "MaxIdxP",
+         "MinIdxP", "DotIncP", "AsumIncP", "Nrm2IncP", "CNorm2P", "CNrm2P", "CAsumP"}
+
+PCase(f, n, v) ==
+  IF n < 2 THEN Skip(f, n, v) ELSE
+  LET x0 == Vec(n, 3, 1, v)  y0 == Vec(n, 5, 2, v)
+      x == PairX(x0, n, v)
+      xx == PairXX(x0, n, v)  yy == PairYY(y0, n, v)
+      B0 == Base(f, n, v) IN
+  CASE f = "SumP"     -> [B0 EXCEPT !.x = x, !.s = SumS(x)]
+    [] f = "Norm1P"   -> [B0 EXCEPT !.x = x, !.s = Norm1S(x)]
+    \* max norm: math.Max semantics (NaN dominates); an implementation that skips NaN entries
+    \* (as Distance does) is equally within the documentation: both values are accepted
+    [] f = "NormInfP" -> [B0 EXCEPT !.x = x, !.s = MaxAbsNaN(x), !.alt = IF HasNaNV(x) THEN MaxAbsSkip(x) ELSE KEEP]
+    [] f = "CumSumP"  -> [B0 EXCEPT !.x = x, !.w = CumSumV(x)]
+    [] f = "MaxIdxP"  -> [B0 EXCEPT !.x = x, !.s = x[MaxIdxS(x)], !.allow = IF NonNaN(x) = {} THEN Asc(1..n) ELSE <<MaxIdxS(x)>>]
+    [] f = "MinIdxP"  -> [B0 EXCEPT !.x = x, !.s = x[MinIdxS(x)], !.allow = IF NonNaN(x) = {} THEN Asc(1..n) ELSE <<MinIdxS(x)>>]
+    [] f = "DotP"     -> [B0 EXCEPT !.x = xx, !.y = yy, !.s = DotS(xx, yy)]
+    [] f = "Dist1P"   -> [B0 EXCEPT !.x = xx, !.y = yy, !.s = Norm1S(SubV(yy, xx))]
+    [] f = "DistInfP" -> LET d == SubV(yy, xx) IN
+                         [B0 EXCEPT !.x = xx, !.y = yy, !.s = MaxAbsNaN(d), !.alt = IF HasNaNV(d) THEN MaxAbsSkip(d) ELSE KEEP]
+    \* Euclidean norm: a perfect-square tuple of length n-2 with the two specials INSERTED (a -0
+    \* adds nothing to the sum of squares); NaN if any NaN, else +Inf if any Inf, else r * 2^e
+    [] f = "Norm2P"   -> IF ~HasSq0(n - 2) THEN Skip(f, n, v) ELSE
+                         [B0 EXCEPT !.x = Ins2(SqVec0(n - 2, v), n, D1(n, v), K1(v), D2(n, v), K2(v)),
+                            !.e = ExpOf(v \div 16 + n), !.tol = n + 4, !.s = NormClass({K1(v), K2(v)}, SqRoot(n - 2))]
+    \* distance: x = y + m on the tuple positions; at the inserted positions either
+    \* (x, y) = (K1, 0) and (0, K2), or (K1, K2) at one position and (0, 0) at the other
+    [] f = "Dist2P"   -> IF ~HasSq0(n - 2) THEN Skip(f, n, v) ELSE
+                         LET m == SqVec0(n - 2, v)  yb == Vec(n - 2, 5, 2, v)
+                             same == PMode(n, v) = 2
+                             xa == IF same THEN K1(v) ELSE K1(v)   ya == IF same THEN K2(v) ELSE 0
+                             xb == 0                               yc == IF same THEN 0 ELSE K2(v)
+                         IN [B0 EXCEPT !.x = Ins2(AddV(yb, m), n, D1(n, v), xa, D2(n, v), xb),
+                               !.y = Ins2(yb, n, D1(n, v), ya, D2(n, v), yc),
+                               !.e = ExpOf(v \div 16 + n), !.tol = n + 6,
+                               !.s = NormClass({XSub(xa, ya), XSub(xb, yc)}, SqRoot(n - 2))]
+    \* ---- strided forms, increments 1..3 (y also negative)
+    [] f = "DotIncP"  -> LET ix == IncP(n, v)  iy == IncPY(n, v) IN
+                         [B0 EXCEPT !.incx = ix, !.incy = iy, !.x = Lay(xx, ix, Guard), !.y = Lay(yy, iy, Guard),
+                            !.s = DotS(xx, yy)]
+    [] f = "AsumIncP" -> LET ix == IncP(n, v) IN
+                         [B0 EXCEPT !.incx = ix, !.x = Lay(x, ix, Guard), !.s = Norm1S(x)]
+    [] f = "Nrm2IncP" -> IF ~HasSq0(n - 2) THEN Skip(f, n, v) ELSE
+                         LET ix == IncP(n, v) IN
+                         [B0 EXCEPT !.incx = ix, !.e = ExpOf(v \div 16 + n), !.e32 = ExpOf32(v \div 16 + n), !.tol = n + 4,
+                            !.x = Lay(Ins2(SqVec0(n - 2, v), n, D1(n, v), K1(v), D2(n, v), K2(v)), ix, Guard),
+                            !.s = NormClass({K1(v), K2(v)}, SqRoot(n - 2))]
+    \* ---- complex: the 2n real components carry the tuple of length 2n-2 and the two specials.
+    \* With both an Inf and a NaN present a complex norm may follow hypot (Inf wins inside one
+    \* element, and in the reference-BLAS scaled sum) or the real rule (NaN wins): both accepted.
+    [] f = "CNorm2P"  -> IF ~HasSq0(2 * n - 2) THEN Skip(f, n, v) ELSE
+                         LET S == {K1(v), K2(v)} IN
+                         [B0 EXCEPT !.e = ExpOf(v \div 16 + n), !.e32 = ExpOf32(v \div 16 + n), !.tol = 2 * n + 4,
+                            !.x = Ins2(SqVec0(2 * n - 2, v), 2 * n, D1(2 * n, v), K1(v), D2(2 * n, v), K2(v)),
+                            !.s = NormClass(S, SqRoot(2 * n - 2)), !.alt = IF AnyNaN(S) /\ AnyInf(S) THEN PInf ELSE KEEP]
+    [] f = "CNrm2P"   -> IF ~HasSq0(2 * n - 2) THEN Skip(f, n, v) ELSE
+                         LET S == {K1(v), K2(v)}  ix == IncP(n, v)
+                             m == Ins2(SqVec0(2 * n - 2, v), 2 * n, D1(2 * n, v), K1(v), D2(2 * n, v), K2(v))
+                             z == [p \in 1..n |-> <<m[2 * p - 1], m[2 * p]>>] IN
+                         [B0 EXCEPT !.incx = ix, !.e = ExpOf(v \div 16 + n), !.e32 = ExpOf32(v \div 16 + n), !.tol = 2 * n + 4,
+                            !.x = Flat(Lay(z, ix, CGuard)),
+                            !.s = NormClass(S, SqRoot(2 * n - 2)), !.alt = IF AnyNaN(S) /\ AnyInf(S) THEN PInf ELSE KEEP]
+    [] f = "CAsumP"   -> LET ix == IncP(n, v)
+                             m == PairX(Flat(CVec(n, 3, 1, v)), 2 * n, v)
+                             z == [p \in 1..n |-> <<m[2 * p - 1], m[2 * p]>>] IN
+                         [B0 EXCEPT !.incx = ix, !.x = Flat(Lay(z, ix, CGuard)), !.s = Norm1S(m)]
+
+Case(f, n, v) == IF f \in CFns THEN CCase(f, n, v) ELSE IF f \in SFns THEN SCase(f, n, v)
+                 ELSE IF f \in PFns THEN PCase(f, n, v) ELSE RCase(f, n, v)
 
 \* every emitted complex division is exact
 CDivOK == c.f \in {"CDiv", "CDivTo"} => \A i \in 1..c.n : CDivExact(CDivX(c.n, c.v)[i], CDivY(c.n, c.v)[i])
